@@ -36,6 +36,41 @@ void ob_c16c_dot_inner(const svf<CL>& lhs, const svf<CR>& rhs)
 }
 #define DI(RL,RR,CL,CR) template void ob_c16c_dot_inner<RL,RR,CL,CR>(const svf<CL>&, const svf<CR>&);
 DI(2,2,2,2) DI(1,2,1,2) DI(2,1,2,1) DI(3,3,3,3) DI(2,3,4,4) DI(4,4,4,4)
+// kron_dst_reshape(lhs_shape, rhs_shape): max(L, R) extents - aligned at the trailing axis the product of the two extents, the leading extents of
+// the longer shape copied. Bounded x bounded, fixed x bounded and bounded x fixed operand kinds (the capacity of the result must come from BOTH).
+#include "nmtools/array/view/kron.hpp"
+template <size_t RL, size_t RR, class LHS, class RHS>
+__attribute__((always_inline)) inline void kron_dst(const LHS& lhs, const RHS& rhs, long kind)
+{
+    constexpr size_t D = RL > RR ? RL : RR;
+    auto r = ix::kron_dst_reshape(lhs, rhs);
+    OBLIGE("C16.kron.dst_reshape.result_holds_all_extents|C02.kron.dst_reshape.result_holds_all_extents", (size_t)nm::len(r) == D, RL, RR, kind);
+    if ((size_t)nm::len(r) == D) for_<D>([&](auto I){
+        constexpr size_t i = I.value;                       // axis of the result; the operands are right-aligned
+        constexpr bool has_l = i + RL >= D, has_r = i + RR >= D;
+        size_t want = (has_l ? (size_t)nm::at(lhs, i + RL - D) : 1) * (has_r ? (size_t)nm::at(rhs, i + RR - D) : 1);
+        OBLIGE("C16.kron.dst_reshape.extent_is_the_product_of_the_aligned_extents", (size_t)nm::at(r, i) == want, RL, RR, kind, i);
+    });
+}
+template <size_t RL, size_t RR, size_t CL, size_t CR>
+void ob_c16c_kron_bounded(const svf<CL>& lhs, const svf<CR>& rhs)
+{ ASSUME(lhs.size() == RL); ASSUME(rhs.size() == RR); kron_dst<RL,RR>(lhs, rhs, 0); }
+template <size_t RL, size_t RR, size_t CR>
+void ob_c16c_kron_fixed_bounded(const std::array<size_t,RL>& lhs, const svf<CR>& rhs)
+{ ASSUME(rhs.size() == RR); kron_dst<RL,RR>(lhs, rhs, 1); }
+template <size_t RL, size_t RR, size_t CL>
+void ob_c16c_kron_bounded_fixed(const svf<CL>& lhs, const std::array<size_t,RR>& rhs)
+{ ASSUME(lhs.size() == RL); kron_dst<RL,RR>(lhs, rhs, 2); }
+#define KB(RL,RR,CL,CR) template void ob_c16c_kron_bounded<RL,RR,CL,CR>(const svf<CL>&, const svf<CR>&);
+KB(2,2,2,2) KB(2,3,2,3) KB(3,2,3,2) KB(1,3,2,3) KB(2,3,4,4)
+template void ob_c16c_kron_fixed_bounded<1,2,3>(const std::array<size_t,1>&, const svf<3>&);
+template void ob_c16c_kron_fixed_bounded<1,3,3>(const std::array<size_t,1>&, const svf<3>&);
+template void ob_c16c_kron_fixed_bounded<2,3,3>(const std::array<size_t,2>&, const svf<3>&);
+template void ob_c16c_kron_fixed_bounded<3,2,3>(const std::array<size_t,3>&, const svf<3>&);
+template void ob_c16c_kron_bounded_fixed<2,1,3>(const svf<3>&, const std::array<size_t,1>&);
+template void ob_c16c_kron_bounded_fixed<3,1,3>(const svf<3>&, const std::array<size_t,1>&);
+template void ob_c16c_kron_bounded_fixed<3,2,3>(const svf<3>&, const std::array<size_t,2>&);
+template void ob_c16c_kron_bounded_fixed<2,3,3>(const svf<3>&, const std::array<size_t,3>&);
 void ob_c16c_negctl(const svf<2>& lhs, const svf<2>& rhs)
 {
     ASSUME(lhs.size() == 2); ASSUME(rhs.size() == 2);
